@@ -80,6 +80,16 @@ CHECKS = {
                 assumptions=['the reference interpreter (simqb/ref.py, semantic decisions in DESIGN.md appendix A) is trusted',
                              'runs that leave the reference subset are counted as inconclusive, not compared',
                              'the virtual clock advances per low-level device call (event-driven)']),
+    'C10': dict(mod='c10', level='fault_enumeration',
+                rule=('scenario = reference-subset program with an armed handler (shapes: GOTO h + RESUME NEXT, GOTO h + repair + '
+                      'RESUME, ON ERROR RESUME NEXT, handler that ENDs; optional later ON ERROR GOTO 0) and 1-3 planted run-time '
+                      'errors (5 categories, depth 0-3, in nested blocks / multi-statement lines / GOSUB routines / procedures) x '
+                      '-O0/-O1/-O2 with -g; fault-free run, then a device failure at every device operation of that run (cap 40) and '
+                      'sampled pairs/triples; reference interpreter under the same plan; stack-depth monitor. evaluations = '
+                      'compilations + simulated runs; distinct_nontrivial = distinct (text, plan) digests in which an error was '
+                      'actually handled and all configurations agreed with the reference'),
+                assumptions=['reference interpreter semantics of ON ERROR (DESIGN.md appendix A); errors in block headers under a handler are inconclusive',
+                             'for an error inside a procedure the property only promises transfer to the handler; resumption inside the procedure follows the machine\'s design and is compared as such']),
 }
 
 
